@@ -116,7 +116,35 @@ Section EnvInv.
     inv_future : Forall (fun e => now en <= e_time e) (queue en);
     inv_paused : Forall (fun e => exists p, e_paused_at e = Some p /\ p <= now en /\ p <= e_time e) (paused en);
     inv_ids : NoDup (map e_id (all_events en));
-    inv_fresh : Forall (fun e => (e_id e < next_eid en)%nat) (all_events en) }.
+    inv_fresh : Forall (fun e => (e_id e < next_eid en)%nat) (all_events en);
+    inv_disp : Forall (fun e => e_time e <= now en) (dispatched en) }.
+
+  Lemma NoDup_app_l {X} (l l' : list X) : NoDup (l ++ l') -> NoDup l.
+  Proof.
+    induction l as [|x l IH]; cbn; [constructor|]. intro H. inversion H; subst.
+    constructor; [|auto]. intro Hin. apply H2. apply in_or_app. auto.
+  Qed.
+
+  Lemma NoDup_app_disj {X} (l l' : list X) x : NoDup (l ++ l') -> In x l -> In x l' -> False.
+  Proof.
+    induction l as [|y l IH]; cbn; [tauto|]. intros H [->|Hin] H'.
+    - inversion H; subst. apply H2. apply in_or_app. auto.
+    - inversion H; subst. auto.
+  Qed.
+
+  Lemma inv_queue_paused_disj (en : env) x y : Inv en -> In x (queue en) -> In y (paused en) -> e_id x <> e_id y.
+  Proof.
+    intros [_ _ _ N _ _] Hx Hy E. unfold all_events in N. rewrite app_assoc, map_app in N.
+    apply NoDup_app_l in N. rewrite map_app in N.
+    eapply NoDup_app_disj; [exact N|apply in_map, Hx|rewrite E; apply in_map, Hy].
+  Qed.
+
+  Lemma inv_queue_head_unique (en : env) e q e' : Inv en -> queue en = e :: q -> In e' q -> e_id e <> e_id e'.
+  Proof.
+    intros [_ _ _ N _ _] Q H E. unfold all_events in N. rewrite Q in N. cbn in N.
+    inversion N as [|? ? Nin _]; subst. apply Nin. rewrite map_app. apply in_or_app. left.
+    rewrite E. apply in_map, H.
+  Qed.
 
   Lemma Inv_init : Inv init_env.
   Proof. split; cbn; constructor. Qed.
@@ -133,7 +161,7 @@ Section EnvInv.
     Inv en -> schedule wsrc en t p a act = Ok en' -> Inv en'.
   Proof.
     intros I H. unfold schedule in H. destruct (t <? now en) eqn:Ht; [discriminate|].
-    apply Z.ltb_ge in Ht. injection H as <-. destruct I as [S F P N R].
+    apply Z.ltb_ge in Ht. injection H as <-. destruct I as [S F P N R D].
     set (e := mkEvent (next_eid en) t p (wsrc (next_eid en)) a act None false).
     assert (PM : Permutation (insort e (queue en) ++ paused en ++ dispatched en)
                              (e :: queue en ++ paused en ++ dispatched en)).
@@ -148,6 +176,7 @@ Section EnvInv.
       rewrite Forall_forall in R. apply R in Hin. lia.
     - unfold all_events in *; cbn -[insort]. eapply Forall_perm; [symmetry; exact PM|].
       constructor; [cbn; lia|]. eapply Forall_impl; [|exact R]. cbn. intros; lia.
+    - exact D.
   Qed.
 
   Lemma schedule_err (en : env) t p a act en' :
@@ -167,7 +196,7 @@ Section EnvInv.
 
   Lemma pause_inv (en : env) a : Inv en -> Inv (pause en a).
   Proof.
-    intros [S F P N R].
+    intros [S F P N R D].
     assert (PM : Permutation (all_events (pause en a))
                   (map (fun e => if matches a e then stamp (now en) e else e) (queue en) ++ paused en ++ dispatched en)).
     { unfold all_events; cbn.
@@ -194,6 +223,7 @@ Section EnvInv.
       unfold all_events in R. apply Forall_app in R. destruct R as [R1 R2]. apply Forall_app; split; [|exact R2].
       rewrite Forall_forall in *. intros x Hx. apply in_map_iff in Hx. destruct Hx as [y [<- Hy]].
       destruct (matches a y); cbn; apply R1, Hy.
+    - exact D.
   Qed.
 
   Lemma resumed_id t (e : event) : e_id (resumed t e) = e_id e.
@@ -201,7 +231,7 @@ Section EnvInv.
 
   Lemma unpause_inv (en : env) a : Inv en -> Inv (unpause en a).
   Proof.
-    intros [S F P N R].
+    intros [S F P N R D].
     pose (hit := filter (matches a) (paused en)).
     pose (rest := filter (fun e => negb (matches a e)) (paused en)).
     assert (PQ : Permutation (queue (unpause en a)) (queue en ++ map (resumed (now en)) hit))
@@ -229,6 +259,7 @@ Section EnvInv.
       apply Forall_app; split; rewrite Forall_forall in *.
       + intros x Hx. apply in_map_iff in Hx. destruct Hx as [y [<- Hy]]. apply filter_In in Hy. cbn. apply R2, Hy.
       + intros x Hx. apply filter_In in Hx. apply R2, Hx.
+    - exact D.
   Qed.
 
   Lemma cancel_key a (e : event) : key (if matches a e then cancel_ev e else e) = key e.
@@ -236,7 +267,7 @@ Section EnvInv.
 
   Lemma cancel_inv (en : env) a : Inv en -> Inv (cancel en a).
   Proof.
-    intros [S F P N R].
+    intros [S F P N R D].
     set (f := fun e : event => if matches a e then cancel_ev e else e).
     assert (Hid : forall l, map e_id (map f l) = map e_id l).
     { intros l. rewrite map_map. apply map_ext. intros x. unfold f. destruct (matches a x); reflexivity. }
@@ -252,10 +283,11 @@ Section EnvInv.
       apply Forall_app; split; [|apply Forall_app; split; [|exact R3]];
         rewrite Forall_forall in *; intros x Hx; apply in_map_iff in Hx; destruct Hx as [y [<- Hy]];
         unfold f; destruct (matches a y); cbn; auto.
+    - exact D.
   Qed.
 
   Lemma add_data_inv (en : env) l s d : Inv en -> Inv (add_data en l s d).
-  Proof. intros [S F P N R]. split; assumption. Qed.
+  Proof. intros [S F P N R D]. split; assumption. Qed.
 
   Lemma apply_cmd_inv (en : env) c r : Inv en -> apply_cmd wsrc en c = r -> Inv (res_val r).
   Proof.
@@ -283,7 +315,7 @@ Section EnvInv.
 
   Lemma pop_inv (en : env) e q : Inv en -> queue en = e :: q -> Inv (popped en e q).
   Proof.
-    intros [S F P N R] Q. rewrite Q in *.
+    intros [S F P N R D] Q. rewrite Q in *.
     inversion S as [|? ? S' FS]; subst. inversion F as [|? ? Fe F']; subst.
     assert (PM : Permutation (q ++ paused en ++ e :: dispatched en) ((e :: q) ++ paused en ++ dispatched en)).
     { cbn. rewrite !app_assoc. symmetry. apply Permutation_middle. }
@@ -293,10 +325,11 @@ Section EnvInv.
     - rewrite Forall_forall in *. intros x Hx. destruct (P x Hx) as [p [E [H1 H2]]]. exists p. repeat split; auto; lia.
     - unfold all_events in *; cbn. rewrite Q in N. eapply NoDup_map_perm; [symmetry; exact PM|exact N].
     - unfold all_events in *; cbn. rewrite Q in R. eapply Forall_perm; [symmetry; exact PM|exact R].
+    - constructor; [lia|]. eapply Forall_impl; [|exact D]. cbn. intros; lia.
   Qed.
 
   Lemma set_terminated_inv (en : env) b : Inv en -> Inv (set_terminated en b).
-  Proof. intros [S F P N R]. split; assumption. Qed.
+  Proof. intros [S F P N R D]. split; assumption. Qed.
 
   Notation state := (W * env)%type.
   Notation step := (step wsrc exec).
@@ -313,6 +346,13 @@ Section EnvInv.
         pose proof (apply_cmds_inv cs _ I1) as I2.
         destruct (apply_cmds wsrc _ cs); injection H as <-; exact I2.
       + injection H as <-. cbn. apply set_terminated_inv, I1.
+  Qed.
+
+  Lemma step_none s : step s = None -> queue (snd s) = [].
+  Proof.
+    destruct s as [w en]. unfold Env.step. cbn [snd]. destruct (queue en) as [|e q]; [reflexivity|].
+    destruct (e_cancelled e); [discriminate|]. destruct (e_act e) as [a|]; [|discriminate].
+    destruct (exec a w (e_time e)) as [w' cs]. destruct (apply_cmds wsrc _ cs); discriminate.
   Qed.
 
   (** * Reachability: any interleaving of steps and external calls.  The
@@ -364,7 +404,7 @@ Section EnvInv.
     (forall e', In e' q -> e_time e' = e_time e -> e_prio e' <= e_prio e) /\
     now (snd s) <= e_time e.
   Proof.
-    intros R Q _. apply reach_inv in R. destruct R as [S F _ _ _]. rewrite Q in *.
+    intros R Q _. apply reach_inv in R. destruct R as [S F _ _ _ _]. rewrite Q in *.
     inversion S as [|? ? S' FS]; subst. inversion F; subst. rewrite Forall_forall in FS.
     repeat split; auto.
     - intros e' H. apply le_ev_time, FS, H.
@@ -426,7 +466,7 @@ Section EnvInv.
     reach s -> NoDup (map e_id (dispatched (snd s))) /\
                (forall e e', In e (dispatched (snd s)) -> In e' (queue (snd s) ++ paused (snd s)) -> e_id e <> e_id e').
   Proof.
-    intro R. apply reach_inv in R. destruct R as [_ _ _ N _]. unfold all_events in N.
+    intro R. apply reach_inv in R. destruct R as [_ _ _ N _ _]. unfold all_events in N.
     rewrite app_assoc, map_app in N. split.
     - apply NoDup_app_r in N. exact N.
     - intros e e' H1 H2 E.
